@@ -38,12 +38,12 @@ pub struct ProveError { pub _p: () }
 /// execution traces of one run: tagged with the circuit that was run
 pub struct Traces { pub of: Ghost<Cid> }
 /// committed preprocessed data + AIRs: tagged with the circuit they were derived from
-pub struct CircuitProverData { pub for_circuit: Ghost<Cid>, pub cfg: Ghost<int>, pub ext_degrees: Ghost<Seq<usize>>, pub common: CommonData }
+pub struct CircuitProverData { pub for_circuit: Ghost<Cid>, pub cfg: Ghost<int>, pub ext_degrees: Ghost<Seq<usize>>, /** the params (packing, profile) the AIRs and preprocessed columns were laid out with */ pub prep_packing: Ghost<int>, pub common: CommonData }
 impl CircuitProverData { pub fn common_data(&self) -> (r: &CommonData) ensures *r == self.common { &self.common } }
 /// Rc<CircuitProverData> (the reference count is erased)
 pub type RcData = CircuitProverData;
 #[verifier::external_body]
-pub fn rc_clone(d: &RcData) -> (r: RcData) ensures r.for_circuit@ == d.for_circuit@, r.common == d.common, r.cfg@ == d.cfg@, r.ext_degrees@ == d.ext_degrees@ { unimplemented!() }
+pub fn rc_clone(d: &RcData) -> (r: RcData) ensures r.for_circuit@ == d.for_circuit@, r.common == d.common, r.cfg@ == d.cfg@, r.ext_degrees@ == d.ext_degrees@, r.prep_packing@ == d.prep_packing@ { unimplemented!() }
 pub fn rc_new(d: CircuitProverData) -> (r: RcData) ensures r == d { d }
 /// a batch proof: tagged with the circuit whose traces it proves, the circuit whose preprocessed commitment it carries, and the prover's config
 pub struct BatchStarkProof { pub traces_of: Ghost<Cid>, pub prep_of: Ghost<Cid>, pub cfg: Ghost<int>, pub packing: Ghost<int>, pub proof: BatchProofStub, pub stark_common: CommonData }
@@ -69,6 +69,8 @@ pub struct RecursionOutput(pub BatchStarkProof, pub RcData);
 /// a layer output is coherent when proof, preprocessed data and configuration all belong to the call: only then does it verify like an uncached one
 pub open spec fn coherent(out: &RecursionOutput, c: &Circuit, config: &Cfg) -> bool {
     out.0.traces_of@ == cid(c) && out.0.prep_of@ == cid(c) && out.1.for_circuit@ == cid(c) && out.0.cfg@ == config.id@
+    // the prover that made the proof lays the tables out as the committed preprocessed data was laid out
+    && out.0.packing@ == out.1.prep_packing@
 }
 /// on the uncached path the prover is also the one built for the params of THIS call
 pub open spec fn fresh(out: &RecursionOutput, params: &ProveNextLayerParams) -> bool { out.0.packing@ == params.id@ }
@@ -87,7 +89,7 @@ pub open spec fn fp_of(c: Cid) -> AggregationCircuitFingerprint {
 pub struct AggregationPrepCache { pub circuit_fingerprint: AggregationCircuitFingerprint, pub circuit_prover_data: RcData, pub prover: BatchStarkProver }
 pub struct NextLayerPrepCache { pub circuit_prover_data: RcData, pub prover: BatchStarkProver }
 /// representation invariant of a filled aggregation cache slot: the stored fingerprint is the fingerprint of the circuit the data was prepared for
-pub open spec fn slot_inv(s: Option<AggregationPrepCache>) -> bool { s matches Some(c) ==> c.circuit_fingerprint == fp_of(c.circuit_prover_data.for_circuit@) }
+pub open spec fn slot_inv(s: Option<AggregationPrepCache>) -> bool { s matches Some(c) ==> c.circuit_fingerprint == fp_of(c.circuit_prover_data.for_circuit@) && c.prover.packing@ == c.circuit_prover_data.prep_packing@ }
 
 // ---------------------------------------------------------------- assumed callees (each only says whose data it returns)
 #[verifier::external_body]
@@ -112,7 +114,7 @@ pub open spec fn prepared_like_uncached(d: &RcData, c: &Circuit, config: &Cfg, p
 }
 pub struct Columns { pub of: Ghost<Cid> }
 pub struct Airs { pub of: Ghost<Cid>, pub packing: Ghost<int> }
-pub struct ProverData { pub of: Ghost<Cid>, pub cfg: Ghost<int>, pub degrees: Ghost<Seq<usize>> }
+pub struct ProverData { pub of: Ghost<Cid>, pub cfg: Ghost<int>, pub degrees: Ghost<Seq<usize>>, pub packing: Ghost<int> }
 pub struct TablePacking { pub _p: () }
 #[derive(Clone, Copy)]
 pub struct ConstraintProfile { pub _p: () }
@@ -138,11 +140,11 @@ pub fn unzip_(a: AirsDegrees) -> (r: (Airs, Vec<usize>)) ensures r.0.of@ == a.of
 pub fn ext_degrees_(d: &Vec<usize>, config: &Cfg) -> (r: Vec<usize>) ensures r@ == ext_of(d@, config.zk) { unimplemented!() }
 impl ProverData {
     #[verifier::external_body]
-    pub fn from_airs_and_degrees(config: &Cfg, airs: &Airs, ext: &Vec<usize>) -> (r: ProverData) ensures r.of@ == airs.of@ && r.cfg@ == config.id@ && r.degrees@ == ext@ { unimplemented!() }
+    pub fn from_airs_and_degrees(config: &Cfg, airs: &Airs, ext: &Vec<usize>) -> (r: ProverData) ensures r.of@ == airs.of@ && r.cfg@ == config.id@ && r.degrees@ == ext@ && r.packing@ == airs.packing@ { unimplemented!() }
 }
 impl CircuitProverData {
     #[verifier::external_body]
-    pub fn new(pd: ProverData, prim: Columns, nonprim: Columns) -> (r: CircuitProverData) ensures r.for_circuit@ == pd.of@ && r.cfg@ == pd.cfg@ && r.ext_degrees@ == pd.degrees@ { unimplemented!() }
+    pub fn new(pd: ProverData, prim: Columns, nonprim: Columns) -> (r: CircuitProverData) ensures r.for_circuit@ == pd.of@ && r.cfg@ == pd.cfg@ && r.ext_degrees@ == pd.degrees@ && r.prep_packing@ == pd.packing@ { unimplemented!() }
 }
 /// build_layer_prover(config, &params.table_packing, params.constraint_profile, provers): a prover for THIS config and THESE params
 #[verifier::external_body]
@@ -263,6 +265,9 @@ def build():
     nx.set_sig('R11', 'fn prove_next_layer(prev: &RecInput, verification_circuit: &Circuit, verifier_result: &VResult, config: &Cfg, backend: &Backend, params: &ProveNextLayerParams, '
                       'prep: Option<&NextLayerPrepCache>) -> Result<RecursionOutput, VerificationError>')
     common(nx)
+    prep_rewrites(nx)
+    # a cache is only ever built by build_next_layer_prep, which pairs the prover with the data it prepared (its postcondition below)
+    nx.requires('the_cache_pairs_a_prover_with_the_data_it_prepared', 'prep matches Some(c) ==> c.prover.packing@ == c.circuit_prover_data.prep_packing@')
     nx.ensures('result_belongs_to_this_call', 'ret matches Ok(out) ==> coherent(&out, verification_circuit, config)')
     nx.before('let traces = run_layer_circuit', '''proof {
             // nothing guards this block: the property needs the cached data to be for THIS circuit and THIS configuration
@@ -275,7 +280,7 @@ def build():
     bp.set_sig('R11', 'fn build_next_layer_prep(verification_circuit: &Circuit, config: &Cfg, backend: &Backend, params: &ProveNextLayerParams) -> Result<NextLayerPrepCache, VerificationError>')
     common(bp)
     prep_rewrites(bp)
-    bp.ensures('cached_preparation_is_the_uncached_preparation', 'ret matches Ok(c) ==> prepared_like_uncached(&c.circuit_prover_data, verification_circuit, config, params) && c.prover.cfg@ == config.id@ && c.prover.packing@ == params.id@')
+    bp.ensures('cached_preparation_is_the_uncached_preparation', 'ret matches Ok(c) ==> prepared_like_uncached(&c.circuit_prover_data, verification_circuit, config, params) && c.prover.cfg@ == config.id@ && c.prover.packing@ == params.id@ && c.prover.packing@ == c.circuit_prover_data.prep_packing@')
     nm = u.extract(R, '', 'prove_next_layer', 'prove_next_layer[miss_path]')
     nm.drop_prefix_before('let (airs_degrees, primitive_columns, non_primitive_columns) =', 'prefix: the unguarded cache-hit block (prefix slice)')
     nm.rewrite_re('R13', r'let traces = \{.*?runner\.run\(\)\.map_err\(VerificationError::Circuit\)\?\s*\};', 'let traces = run_layer_circuit(prev, verification_circuit, verifier_result, config, backend)?;', min_count=0, flags_dotall=True)
